@@ -59,8 +59,8 @@ Proof.
       * exact B2.
   - (* unary *)
     destruct o.
-    + eexists _, _; cbn; repeat split; auto; try discriminate. cbn in H; lia.
-    + eexists _, _; cbn; repeat split; auto; try discriminate; cbn in H; lia.
+    + eexists _, _; split; [reflexivity|]; cbn; repeat split; intros; auto; try discriminate; lia.
+    + eexists _, _; split; [reflexivity|]; cbn; repeat split; intros; auto; try discriminate; lia.
   - (* call *)
     apply andb_prop in W as [W _]. apply andb_prop in W as [W _]. apply andb_prop in W as [W1 W2].
     apply Nat.leb_le in W2.
@@ -90,7 +90,7 @@ Proof.
     cbn [print_expr]. rewrite E. eexists t, _; split; [reflexivity|]. split; [exact S1|].
     split; [intros _; apply N3; lia|]. split; [intros _; apply N9; lia|].
     destruct t; auto. destruct ts; cbn; auto.
-  - eexists _, _; cbn; repeat split; auto; try discriminate; cbn in H; lia.
+  - eexists _, _; split; [reflexivity|]; cbn; repeat split; intros; auto; try discriminate; lia.
   - apply andb_prop in W as [W1 W2]. apply Nat.leb_le in W2.
     destruct (IHe W1) as (t & ts & E & S1 & N3 & N9 & B2).
     cbn [print_expr]. rewrite E. eexists t, _; split; [reflexivity|]. split; [exact S1|].
@@ -109,4 +109,888 @@ Proof.
     split; [intros _; apply N3; lia|]. split; [cbn; intros; lia|].
     destruct t; auto. destruct ts; cbn; auto. destruct incl; reflexivity.
   - discriminate.
+Qed.
+
+(* ------------------------------------------------------------------ dispatch lemmas *)
+Definition postfix_entry (f : nat) (ts : list tok) : pres (expr * list tok) :=
+  bind (primary_with (pe f LOr) (pelems f) (pkvs f) ts) (fun r => ploop f (fst r) (snd r)).
+
+Definition is_loop (L : level) : Prop :=
+  match L with LOr | LAnd | LCmp | LAdd | LMul => True | _ => False end.
+
+Lemma pe_S_loop : forall f L ts, is_loop L ->
+  pe (S f) L ts = bind (pe f (next L) ts) (fun r => bloop f L (fst r) (snd r)).
+Proof. intros f L ts H; destruct L; try contradiction; reflexivity. Qed.
+
+Lemma lnum_next_loop : forall L, is_loop L -> lnum (next L) = S (lnum L).
+Proof. intros L H; destruct L; try contradiction; reflexivity. Qed.
+
+Lemma pe_not_default : forall f ts, (forall t, ts <> TKw KNot :: t) -> pe (S f) LNot ts = pe f LCmp ts.
+Proof.
+  intros f ts H. destruct ts as [|t ts]; [reflexivity|].
+  destruct t; try reflexivity. destruct k; try reflexivity. exfalso; eapply H; reflexivity.
+Qed.
+
+Lemma pe_unary_default : forall f ts, (forall t, ts <> TOp OMinus :: t) -> (forall t, ts <> TKw KAwait :: t) ->
+  pe (S f) LUnary ts = postfix_entry f ts.
+Proof.
+  intros f ts H1 H2. destruct ts as [|t ts]; [reflexivity|].
+  destruct t; try reflexivity.
+  - destruct k; try reflexivity. exfalso; eapply H2; reflexivity.
+  - destruct o; try reflexivity. exfalso; eapply H1; reflexivity.
+Qed.
+
+Lemma stop_mono : forall n m rest, n <= m -> stop n rest -> stop m rest.
+Proof. intros n m [|t r] H S; cbn in *; auto. destruct (cont t); auto; lia. Qed.
+
+Lemma binop_at_print : forall L o ts, is_loop L -> op_lvl o = lnum L ->
+  binop_at L (print_binop o ++ ts) = Some (o, ts).
+Proof. intros L o ts HL H; destruct L; try contradiction; destruct o; try discriminate H; reflexivity. Qed.
+
+Lemma binop_at_stop : forall L rest, is_loop L -> stop (lnum L) rest -> binop_at L rest = None.
+Proof.
+  intros L [|t rest] HL S; [destruct L; reflexivity|].
+  destruct L; try contradiction; destruct t; try reflexivity;
+    try (destruct k; try reflexivity; cbn in S; lia);
+    try (destruct o; try reflexivity; cbn in S; lia).
+Qed.
+
+Lemma stop_binop : forall o ts, o <> Pow -> stop (S (op_lvl o)) (print_binop o ++ ts).
+Proof. intros o ts H; destruct o; cbn; try lia; congruence. Qed.
+
+Lemma ploop_stop : forall g e rest, stop 8 rest -> ploop (S g) e rest = POk (e, rest).
+Proof.
+  intros g e [|t rest] S; [reflexivity|].
+  destruct t; try reflexivity. destruct p; try reflexivity; cbn in S; lia.
+Qed.
+
+Lemma is_pu_starts : forall c t ts, starts_expr t = true -> is_pu c (t :: ts) = false.
+Proof. intros c t ts H; destruct t; try reflexivity; destruct p; destruct c; try reflexivity; discriminate H. Qed.
+
+Lemma primary_paren : forall pex pel pkv t, (forall t', t <> TPu PRParen :: t') ->
+  primary_with pex pel pkv (TPu PLParen :: t) =
+  bind (pex t) (fun r =>
+     match snd r with
+     | TPu PComma :: _ =>
+         bind (pel PRParen (snd r)) (fun m =>
+           expect_pu PRParen (snd m) (fun t3 =>
+             match t3 with
+             | TPu PFatArrow :: t4 =>
+                 match to_params (fst r :: fst m) with
+                 | Some ps => bind (pex t4) (fun b => POk (EClosure ps (fst b), snd b))
+                 | None => PErr
+                 end
+             | _ => POk (ETuple (fst r :: fst m), t3)
+             end))
+     | t1 =>
+         expect_pu PRParen t1 (fun t2 =>
+           match t2 with
+           | TPu PFatArrow :: t3 =>
+               match to_params [fst r] with
+               | Some ps => bind (pex t3) (fun b => POk (EClosure ps (fst b), snd b))
+               | None => PErr
+               end
+           | _ => POk (EParen (fst r), t2)
+           end)
+     end).
+Proof.
+  intros pex pel pkv t H. destruct t as [|t0 t]; [reflexivity|].
+  destruct t0; try reflexivity. destruct p; try reflexivity. exfalso; eapply H; reflexivity.
+Qed.
+
+Lemma primary_bracket : forall pex pel pkv t, (forall t', t <> TPu PRBracket :: t') ->
+  primary_with pex pel pkv (TPu PLBracket :: t) =
+  bind (pex t) (fun r => bind (pel PRBracket (snd r)) (fun m =>
+     expect_pu PRBracket (snd m) (fun t3 => POk (EList (fst r :: fst m), t3)))).
+Proof.
+  intros pex pel pkv t H. destruct t as [|t0 t]; [reflexivity|].
+  destruct t0; try reflexivity. destruct p; try reflexivity. exfalso; eapply H; reflexivity.
+Qed.
+
+Lemma pargs_default : forall f ts, (forall t, ts <> TPu PRParen :: t) -> (forall n t, ts <> TId n :: TOp OEq :: t) ->
+  pargs (S f) ts =
+  bind (pe f LOr ts) (fun r =>
+    match snd r with
+    | TPu PComma :: t2 => bind (pargs f t2) (fun m => POk ((None, fst r) :: fst m, snd m))
+    | t1 => POk ([(None, fst r)], t1)
+    end).
+Proof.
+  intros f ts H1 H2. destruct ts as [|t0 ts]; [reflexivity|].
+  destruct t0; try reflexivity.
+  - destruct ts as [|t1 ts]; [reflexivity|]. destruct t1; try reflexivity. destruct o; try reflexivity.
+    exfalso; eapply H2; reflexivity.
+  - destruct p; try reflexivity. exfalso; eapply H1; reflexivity.
+Qed.
+
+Lemma pindex_default : forall pex ts, (forall t, ts <> TPu PColon :: t) -> (forall t, ts <> TPu PRBracket :: t) ->
+  pindex pex ts = bind (pex ts) (fun r =>
+           match snd r with
+           | TPu PColon :: _ => pslice pex (Some (fst r)) (snd r)
+           | t1 => POk (IIndex (fst r), t1)
+           end).
+Proof.
+  intros pex ts H1 H2. destruct ts as [|t0 ts]; [reflexivity|].
+  destruct t0; try reflexivity. destruct p; try reflexivity; exfalso; [eapply H1|eapply H2]; reflexivity.
+Qed.
+
+(* heads of printed expressions never are closing/separating tokens *)
+Lemma starts_not : forall e rest, wfb e = true ->
+  exists t ts, print_expr e ++ rest = t :: ts /\ starts_expr t = true.
+Proof.
+  intros e rest W. destruct (head_ok e W) as (t & ts & E & S & _). rewrite E. eexists _, _; split; [reflexivity|exact S].
+Qed.
+
+Ltac head_neq W rest :=
+  let t := fresh "t" in let ts := fresh "ts" in let E := fresh "E" in let S := fresh "S" in
+  destruct (starts_not _ rest W) as (t & ts & E & S); rewrite E; intros ? Hc; inversion Hc; subst; discriminate S.
+
+(* ------------------------------------------------------------------ the three statements *)
+Definition A (e : expr) (L : level) : Prop :=
+  forall rest f, stop (lnum L) rest -> need e <= f + lnum L ->
+    pe f L (print_expr e ++ rest) = POk (defloat e, rest).
+
+Definition B (e : expr) (L : level) : Prop :=
+  forall rest G res f, 1 <= G -> stop (S (lnum L)) rest ->
+    (forall g, G <= g -> bloop g L (defloat e) rest = POk res) ->
+    G + need e <= f + lnum L + 1 ->
+    pe f L (print_expr e ++ rest) = POk res.
+
+Definition after_ok (e : expr) (rest : list tok) : Prop :=
+  (forall t, rest <> TPu PFatArrow :: t) /\
+  match e with EField _ (FName _) => forall t, rest <> TPu PLParen :: t | _ => True end.
+
+Definition C (e : expr) : Prop :=
+  forall rest G res f, 1 <= G -> after_ok e rest ->
+    (forall g, G <= g -> ploop g (defloat e) rest = POk res) ->
+    G + need e <= f + 10 ->
+    postfix_entry f (print_expr e ++ rest) = POk res.
+
+Lemma need_pos : forall e, 20 <= need e.
+Proof. intros e; unfold need; destruct e; cbn [size]; lia. Qed.
+
+Lemma lnum_le8 : forall L, lnum L <= 8.
+Proof. destruct L; cbn; lia. Qed.
+
+Lemma step_loop_B : forall e L, is_loop L -> A e (next L) -> B e L.
+Proof.
+  intros e L HL HA rest G res f HG Hs Hk Hf.
+  pose proof (need_pos e). pose proof (lnum_le8 L).
+  destruct f as [|f1]; [lia|].
+  rewrite pe_S_loop by exact HL.
+  rewrite (HA rest f1); [| rewrite lnum_next_loop by exact HL; exact Hs | rewrite lnum_next_loop by exact HL; lia].
+  cbn [bind fst snd]. apply Hk. lia.
+Qed.
+
+Lemma B_to_A : forall e L, is_loop L -> B e L -> A e L.
+Proof.
+  intros e L HL HB rest f Hs Hf.
+  apply (HB rest 1 (defloat e, rest) f); [lia | eapply stop_mono; [|exact Hs]; lia | | lia].
+  intros g Hg. destruct g as [|g]; [lia|]. cbn [bloop]. rewrite binop_at_stop by assumption. reflexivity.
+Qed.
+
+Lemma step_not : forall e, (forall rest t, print_expr e ++ rest <> TKw KNot :: t) -> A e LCmp -> A e LNot.
+Proof.
+  intros e Hh HA rest f Hs Hf. pose proof (need_pos e). cbn [lnum] in *.
+  destruct f as [|f1]; [lia|]. rewrite pe_not_default by apply Hh.
+  apply HA; cbn [lnum]; [eapply stop_mono; [|exact Hs]; lia | lia].
+Qed.
+
+Lemma step_range : forall e, A e LAdd -> A e LRange.
+Proof.
+  intros e HA rest f Hs Hf. pose proof (need_pos e). cbn [lnum] in *.
+  destruct f as [|f1]; [lia|]. cbn [pe].
+  rewrite (HA rest f1); cbn [lnum]; [| eapply stop_mono; [|exact Hs]; lia | lia].
+  cbn [bind snd]. destruct rest as [|t rest]; [reflexivity|].
+  destruct t; try reflexivity. destruct o; try reflexivity; cbn in Hs; lia.
+Qed.
+
+Lemma step_pow : forall e, A e LUnary -> A e LPow.
+Proof.
+  intros e HA rest f Hs Hf. pose proof (need_pos e). cbn [lnum] in *.
+  destruct f as [|f1]; [lia|]. cbn [pe].
+  rewrite (HA rest f1); cbn [lnum]; [| eapply stop_mono; [|exact Hs]; lia | lia].
+  cbn [bind snd]. destruct rest as [|t rest]; [reflexivity|].
+  destruct t; try reflexivity. destruct o; try reflexivity; cbn in Hs; lia.
+Qed.
+
+Lemma C_to_A : forall e, (forall rest t, print_expr e ++ rest <> TOp OMinus :: t) ->
+  (forall rest t, print_expr e ++ rest <> TKw KAwait :: t) -> C e -> A e LUnary.
+Proof.
+  intros e H1 H2 HC rest f Hs Hf. pose proof (need_pos e). cbn [lnum] in *.
+  destruct f as [|f1]; [lia|]. rewrite pe_unary_default by (apply H1 || apply H2).
+  apply (HC rest 1 (defloat e, rest) f1); [lia | | | lia].
+  - split.
+    + intros t ->. cbn in Hs. lia.
+    + destruct e; auto. destruct f; auto. intros t ->. cbn in Hs. lia.
+  - intros g Hg. destruct g as [|g]; [lia|]. apply ploop_stop. exact Hs.
+Qed.
+
+Definition AB (e : expr) (L : level) : Prop := A e L /\ (is_loop L -> B e L).
+
+(* from the level that builds e down to any looser level *)
+Lemma descend : forall e L0,
+  (3 <= lnum L0 -> forall rest t, print_expr e ++ rest <> TKw KNot :: t) ->
+  AB e L0 -> forall L, lnum L <= lnum L0 -> AB e L.
+Proof.
+  intros e L0 Hh H0 L HL.
+  assert (S8 : A e LUnary -> AB e LPow) by (intros H; split; [apply step_pow; exact H | intros []]).
+  assert (S7 : A e LPow -> AB e LMul).
+  { intros H. assert (B e LMul) by (apply step_loop_B; [exact I|exact H]). split; [apply B_to_A; [exact I|assumption]|auto]. }
+  assert (S6 : A e LMul -> AB e LAdd).
+  { intros H. assert (B e LAdd) by (apply step_loop_B; [exact I|exact H]). split; [apply B_to_A; [exact I|assumption]|auto]. }
+  assert (S5 : A e LAdd -> AB e LRange) by (intros H; split; [apply step_range; exact H | intros []]).
+  assert (S4 : A e LRange -> AB e LCmp).
+  { intros H. assert (B e LCmp) by (apply step_loop_B; [exact I|exact H]). split; [apply B_to_A; [exact I|assumption]|auto]. }
+  assert (S3 : 3 <= lnum L0 -> A e LCmp -> AB e LNot) by (intros H3 H; split; [apply step_not; [apply Hh; exact H3|exact H] | intros []]).
+  assert (S2 : A e LNot -> AB e LAnd).
+  { intros H. assert (B e LAnd) by (apply step_loop_B; [exact I|exact H]). split; [apply B_to_A; [exact I|assumption]|auto]. }
+  assert (S1 : A e LAnd -> AB e LOr).
+  { intros H. assert (B e LOr) by (apply step_loop_B; [exact I|exact H]). split; [apply B_to_A; [exact I|assumption]|auto]. }
+  destruct L0; cbn [lnum] in *;
+    repeat match goal with
+           | H : AB e LUnary |- _ => pose proof (S8 (proj1 H)); clear S8
+           | H : AB e LPow |- _ => pose proof (S7 (proj1 H)); clear S7
+           | H : AB e LMul |- _ => pose proof (S6 (proj1 H)); clear S6
+           | H : AB e LAdd |- _ => pose proof (S5 (proj1 H)); clear S5
+           | H : AB e LRange |- _ => pose proof (S4 (proj1 H)); clear S4
+           | H : AB e LCmp |- _ => pose proof (S3 ltac:(lia) (proj1 H)); clear S3
+           | H : AB e LNot |- _ => pose proof (S2 (proj1 H)); clear S2
+           | H : AB e LAnd |- _ => pose proof (S1 (proj1 H)); clear S1
+           end;
+    destruct L; cbn [lnum] in HL; try lia; assumption.
+Qed.
+
+(* ------------------------------------------------------------------ lists *)
+Lemma sep_cons : forall (x : list tok) xs, sep (x :: xs) = x ++ flat_map (fun y => TPu PComma :: y) xs.
+Proof.
+  intros x xs; revert x; induction xs as [|y xs IH]; intros x.
+  - cbn. rewrite app_nil_r. reflexivity.
+  - change (sep (x :: y :: xs)) with (x ++ TPu PComma :: sep (y :: xs)). rewrite IH. reflexivity.
+Qed.
+
+Lemma list_sum_cons : forall x xs, list_sum (x :: xs) = x + list_sum xs.
+Proof. reflexivity. Qed.
+
+Lemma in_sum : forall {X} (g : X -> nat) x xs, List.In x xs -> g x <= list_sum (map g xs).
+Proof.
+  intros X g x xs; induction xs as [|y xs IH]; [intros []|].
+  cbn [map]. rewrite list_sum_cons. intros [->|H]; [lia|]. specialize (IH H). lia.
+Qed.
+
+Lemma sum_scale : forall {X} (g : X -> nat) xs, list_sum (map (fun x => 20 * g x) xs) = 20 * list_sum (map g xs).
+Proof. intros X g xs; induction xs as [|y xs IH]; [reflexivity|]. cbn [map]. rewrite !list_sum_cons, IH. lia. Qed.
+
+Definition tail_ok (X : list tok) : Prop := match X with t :: _ => cont t = None | [] => True end.
+
+Lemma tail_stop : forall X, tail_ok X -> stop 0 X.
+Proof. intros [|t X] H; cbn in *; [exact I|]. rewrite H. exact I. Qed.
+
+Lemma pelems_ok : forall close, close = PRParen \/ close = PRBracket ->
+  forall ys rest f,
+  (forall y, List.In y ys -> wfb y = true /\ A y LOr) ->
+  list_sum (map need ys) + 1 <= f ->
+  pelems f close (flat_map (fun y => TPu PComma :: y) (map print_expr ys) ++ TPu close :: rest)
+  = POk (map defloat ys, TPu close :: rest).
+Proof.
+  intros close Hc ys; induction ys as [|y ys IH]; intros rest f Hys Hf.
+  - destruct f as [|f1]; [lia|]. cbn [map flat_map app]. destruct Hc as [-> | ->]; reflexivity.
+  - destruct f as [|f1]; [cbn [map] in Hf; rewrite list_sum_cons in Hf; lia|].
+    cbn [map] in Hf; rewrite list_sum_cons in Hf. pose proof (need_pos y).
+    cbn [map flat_map]. rewrite <- app_assoc. cbn [app]. cbn [pelems].
+    destruct (Hys y (or_introl eq_refl)) as [Wy Ay].
+    set (X := flat_map (fun y0 => TPu PComma :: y0) (map print_expr ys) ++ TPu close :: rest).
+    destruct (starts_not y X Wy) as (t0 & ts0 & E0 & S0).
+    rewrite E0. rewrite is_pu_starts by exact S0. rewrite <- E0.
+    assert (TX : tail_ok X).
+    { unfold X. destruct ys; cbn; [destruct Hc as [-> | ->]; reflexivity | reflexivity]. }
+    rewrite (Ay X f1); [| apply tail_stop; exact TX | cbn [lnum]; lia].
+    cbn [bind fst snd]. unfold X. rewrite IH; [reflexivity | intros; apply Hys; right; assumption | lia].
+Qed.
+
+Lemma pargs_ok : forall args rest f,
+  (forall a, List.In a args -> wfb (snd a) = true /\ A (snd a) LOr) ->
+  list_sum (map (fun a => need (snd a)) args) + 1 <= f ->
+  pargs f (sep (map print_arg args) ++ TPu PRParen :: rest)
+  = POk (map (fun a => (fst a, defloat (snd a))) args, TPu PRParen :: rest).
+Proof.
+  induction args as [|a more IH]; intros rest f Hin Hf.
+  - destruct f as [|f1]; [lia|]. reflexivity.
+  - cbn [map] in Hf; rewrite list_sum_cons in Hf. pose proof (need_pos (snd a)). destruct f as [|f1]; [lia|].
+    destruct (Hin a (or_introl eq_refl)) as [Wa Aa].
+    assert (Hmore : forall b, List.In b more -> wfb (snd b) = true /\ A (snd b) LOr) by (intros; apply Hin; right; assumption).
+    set (X := match more with [] => TPu PRParen :: rest | _ => TPu PComma :: (sep (map print_arg more) ++ TPu PRParen :: rest) end).
+    assert (EX : sep (map print_arg (a :: more)) ++ TPu PRParen :: rest = print_arg a ++ X).
+    { unfold X. destruct more as [|b more']; cbn [map sep]; [reflexivity|]. rewrite <- app_assoc. reflexivity. }
+    rewrite EX.
+    assert (TX : tail_ok X) by (unfold X; destruct more; reflexivity).
+    assert (Hsum : list_sum (map (fun a0 => need (snd a0)) more) + 1 <= f1) by lia.
+    destruct a as [[n|] x]; cbn [fst snd] in *; unfold print_arg; cbn [fst snd].
+    + cbn [app pargs].
+      rewrite (Aa X f1); [| apply tail_stop; exact TX | cbn [lnum]; lia].
+      cbn [bind fst snd map]. clear EX TX. subst X. destruct more as [|b more']; [reflexivity|].
+      cbn iota. rewrite IH; [reflexivity | exact Hmore | exact Hsum].
+    + destruct (head_ok x Wa) as (t0 & ts0 & E0 & S0 & _ & _ & B2).
+      rewrite pargs_default.
+      * rewrite (Aa X f1); [| apply tail_stop; exact TX | cbn [lnum]; lia].
+        cbn [bind fst snd map]. clear EX TX. subst X. destruct more as [|b more']; [reflexivity|].
+        cbn iota. rewrite IH; [reflexivity | exact Hmore | exact Hsum].
+      * rewrite E0. intros t Hc; inversion Hc; subst; discriminate S0.
+      * rewrite E0. intros n t Hc. cbn [app] in Hc. inversion Hc as [[H1 H2]]. subst t0.
+        destruct ts0 as [|t1 ts0]; cbn [app] in H2.
+        -- unfold X in H2. destruct more; inversion H2.
+        -- inversion H2; subst. discriminate B2.
+Qed.
+
+(* ------------------------------------------------------------------ slices *)
+Definition opt_toks (o : option expr) : list tok := match o with Some y => print_expr y | None => [] end.
+Definition slice_toks (s x st : option expr) : list tok :=
+  opt_toks s ++ TPu PColon :: opt_toks x ++ match st with Some y => TPu PColon :: print_expr y | None => [] end.
+
+Definition opt_ok (g : nat) (o : option expr) : Prop :=
+  match o with Some y => wfb y = true /\ A y LOr /\ need y <= g | None => True end.
+
+Lemma pslice_end_default : forall pex start t1, (forall t, t1 <> TPu PRBracket :: t) -> (forall t, t1 <> TPu PColon :: t) ->
+  pslice pex start (TPu PColon :: t1) =
+  bind (bind (pex t1) (fun r => POk (Some (fst r), snd r)))
+        (fun r1 =>
+           match snd r1 with
+           | TPu PColon :: t3 =>
+               match t3 with
+               | TPu PRBracket :: _ => POk (ISlice start (fst r1) None, t3)
+               | _ => bind (pex t3) (fun r2 => POk (ISlice start (fst r1) (Some (fst r2)), snd r2))
+               end
+           | t2 => POk (ISlice start (fst r1) None, t2)
+           end).
+Proof.
+  intros pex start t1 H1 H2. destruct t1 as [|t0 t1]; [reflexivity|].
+  destruct t0; try reflexivity. destruct p; try reflexivity; exfalso; [eapply H2|eapply H1]; reflexivity.
+Qed.
+
+Lemma step_default : forall pex start (e1 : option expr) t3, (forall t, t3 <> TPu PRBracket :: t) ->
+  match t3 with
+  | TPu PRBracket :: _ => POk (ISlice start e1 None, t3)
+  | _ => bind (pex t3) (fun r2 => POk (ISlice start e1 (Some (fst r2)), snd r2))
+  end = bind (pex t3) (fun r2 => POk (ISlice start e1 (Some (fst r2)), snd r2)).
+Proof.
+  intros pex start e1 t3 H. destruct t3 as [|t0 t3]; [reflexivity|].
+  destruct t0; try reflexivity. destruct p; try reflexivity. exfalso; eapply H; reflexivity.
+Qed.
+
+Lemma pslice_ok : forall g start x st rest,
+  opt_ok g x -> opt_ok g st -> (x = None -> st = None) ->
+  pslice (pe g LOr) start (TPu PColon :: opt_toks x ++ match st with Some y => TPu PColon :: print_expr y | None => [] end ++ TPu PRBracket :: rest)
+  = POk (ISlice start (option_map defloat x) (option_map defloat st), TPu PRBracket :: rest).
+Proof.
+  intros g start x st rest Hx Hst Hcc.
+  destruct x as [y|].
+  - destruct Hx as (Wy & Ay & Ny). cbn [opt_toks option_map].
+    rewrite pslice_end_default; try (head_neq Wy (match st with Some y0 => TPu PColon :: print_expr y0 | None => [] end ++ TPu PRBracket :: rest)).
+    destruct st as [z|].
+    + destruct Hst as (Wz & Az & Nz). cbn [app option_map].
+      rewrite (Ay _ g); [| cbn; exact I | cbn [lnum]; lia].
+      cbn [bind fst snd]. rewrite step_default by (head_neq Wz (TPu PRBracket :: rest)).
+      rewrite (Az _ g); [| cbn; exact I | cbn [lnum]; lia]. reflexivity.
+    + cbn [app option_map]. rewrite (Ay _ g); [| cbn; exact I | cbn [lnum]; lia]. reflexivity.
+  - rewrite (Hcc eq_refl). reflexivity.
+Qed.
+
+Lemma pindex_slice_ok : forall g s x st rest,
+  opt_ok g s -> opt_ok g x -> opt_ok g st -> (x = None -> st = None) ->
+  pindex (pe g LOr) (slice_toks s x st ++ TPu PRBracket :: rest)
+  = POk (ISlice (option_map defloat s) (option_map defloat x) (option_map defloat st), TPu PRBracket :: rest).
+Proof.
+  intros g s x st rest Hs Hx Hst Hcc. unfold slice_toks.
+  destruct s as [y|].
+  - destruct Hs as (Wy & Ay & Ny). cbn [opt_toks option_map]. repeat (rewrite <- app_assoc; cbn [app]).
+    rewrite pindex_default; try (head_neq Wy (TPu PColon :: opt_toks x ++ match st with Some y0 => TPu PColon :: print_expr y0 | None => [] end ++ TPu PRBracket :: rest)).
+    rewrite (Ay _ g); [| cbn; exact I | cbn [lnum]; lia].
+    cbn [bind fst snd]. apply pslice_ok; assumption.
+  - cbn [opt_toks option_map app]. repeat (rewrite <- app_assoc; cbn [app]).
+    change (pindex (pe g LOr) (TPu PColon :: ?t)) with (pslice (pe g LOr) None (TPu PColon :: t)).
+    apply pslice_ok; assumption.
+Qed.
+
+Lemma print_slice : forall b s x st, (x = None -> st = None) ->
+  print_expr (ESlice b s x st) = print_expr b ++ TPu PLBracket :: slice_toks s x st ++ [TPu PRBracket].
+Proof.
+  intros b s x st H. unfold slice_toks, opt_toks. cbn [print_expr].
+  destruct x as [y|]; [|rewrite (H eq_refl)]; destruct s; try destruct st;
+    cbn [app]; repeat (rewrite <- app_assoc; cbn [app]); reflexivity.
+Qed.
+
+(* ------------------------------------------------------------------ the induction *)
+Definition ALL (e : expr) : Prop := (forall L, lnum L <= lvl_of e -> AB e L) /\ (9 <= lvl_of e -> C e).
+
+Lemma head_not_not : forall e, wfb e = true -> 3 <= lvl_of e -> forall rest t, print_expr e ++ rest <> TKw KNot :: t.
+Proof.
+  intros e W H rest t. destruct (head_ok e W) as (t0 & ts0 & E & _ & N3 & _). rewrite E. cbn [app].
+  intros Hc; inversion Hc; subst. apply (N3 H); reflexivity.
+Qed.
+
+Lemma head_not_minus : forall e, wfb e = true -> 9 <= lvl_of e ->
+  (forall rest t, print_expr e ++ rest <> TOp OMinus :: t) /\ (forall rest t, print_expr e ++ rest <> TKw KAwait :: t).
+Proof.
+  intros e W H. destruct (head_ok e W) as (t0 & ts0 & E & _ & _ & N9 & _). destruct (N9 H) as [Na Nb].
+  split; intros rest t; rewrite E; cbn [app]; intros Hc; inversion Hc; subst; [apply Na|apply Nb]; reflexivity.
+Qed.
+
+Lemma all_of_C : forall e, wfb e = true -> 9 <= lvl_of e -> C e -> ALL e.
+Proof.
+  intros e W H9 HC. split; [|intros _; exact HC].
+  intros L HL. destruct (head_not_minus e W H9) as [Hm Ha].
+  apply (descend e LUnary).
+  - intros _. apply head_not_not; [exact W|lia].
+  - split; [apply C_to_A; assumption | intros []].
+  - apply lnum_le8.
+Qed.
+
+Lemma all_of_own : forall e L0, wfb e = true -> lnum L0 = lvl_of e -> lvl_of e < 9 -> AB e L0 -> ALL e.
+Proof.
+  intros e L0 W HL0 H9 HAB. split; [|intros; lia].
+  intros L HL. apply (descend e L0); [| exact HAB | lia].
+  intros H3. apply head_not_not; [exact W|lia].
+Qed.
+
+Definition level_of_op (o : binop) : level :=
+  match o with
+  | Or => LOr | And => LAnd
+  | Eq | NotEq | Lt | Gt | LtEq | GtEq | In | NotIn | Is => LCmp
+  | Add | Sub => LAdd | Mul | Div | FloorDiv | Mod => LMul | Pow => LPow
+  end.
+
+Lemma level_of_op_ok : forall o, lnum (level_of_op o) = op_lvl o /\ (o <> Pow -> is_loop (level_of_op o)).
+Proof. intros o; destruct o; cbn; split; auto; congruence. Qed.
+
+Ltac bsplit := repeat match goal with H : _ && _ = true |- _ => apply andb_prop in H as [? ?] end.
+Ltac osplit := repeat match goal with H : _ || _ = false |- _ => apply orb_false_elim in H as [? ?] end.
+Ltac lebs := repeat match goal with H : (_ <=? _) = true |- _ => apply Nat.leb_le in H end.
+Ltac needs := unfold need in *; cbn [size] in *.
+
+Lemma forallb_in : forall {X} (p : X -> bool) xs x, forallb p xs = true -> List.In x xs -> p x = true.
+Proof. intros X p xs x H Hin. rewrite forallb_forall in H. apply H; exact Hin. Qed.
+
+Lemma existsb_in : forall {X} (p : X -> bool) xs x, existsb p xs = false -> List.In x xs -> p x = false.
+Proof.
+  intros X p xs x H Hin. destruct (p x) eqn:E; [|reflexivity].
+  assert (existsb p xs = true) by (apply existsb_exists; exists x; auto). congruence.
+Qed.
+
+Lemma print_call : forall f args,
+  print_expr (ECall f args) = print_expr f ++ TPu PLParen :: sep (map print_arg args) ++ [TPu PRParen].
+Proof. reflexivity. Qed.
+
+Lemma print_method : forall b m args,
+  print_expr (EMethod b m args) = print_expr b ++ TPu PDot :: TId m :: TPu PLParen :: sep (map print_arg args) ++ [TPu PRParen].
+Proof. reflexivity. Qed.
+
+Lemma need_sum : forall ys, list_sum (map need ys) = 20 * list_sum (map size ys).
+Proof. induction ys as [|y ys IH]; [reflexivity|]. cbn [map]. rewrite !list_sum_cons, IH. unfold need. lia. Qed.
+
+Theorem roundtrip_all : forall n e, size e <= n -> wfb e = true -> has_cc e = false -> ALL e.
+Proof.
+  induction n as [|n IH]; intros e Hn W K; [destruct e; cbn [size] in Hn; lia|].
+  destruct e; cbn [size] in Hn; pose proof W as W0; cbn [wfb] in W; cbn [has_cc] in K.
+  - (* EIdent *)
+    apply all_of_C; [reflexivity | cbn; lia |].
+    intros rest G res f HG Hao Hk Hf. unfold postfix_entry. cbn [print_expr app primary_with bind fst snd].
+    apply Hk. needs. lia.
+  - (* ELit *)
+    apply all_of_C; [exact W | cbn; lia |].
+    intros rest G res f HG Hao Hk Hf. unfold postfix_entry.
+    destruct l as [z|id [k|]|id|id|[|]|]; cbn [print_expr print_lit];
+      try (cbn [app primary_with bind fst snd]; apply Hk; needs; lia).
+    apply Z.leb_le in W. destruct (z <? 0)%Z eqn:E; [apply Z.ltb_lt in E; lia|].
+    cbn [app primary_with bind fst snd]; apply Hk; needs; lia.
+  - (* ESelf *)
+    apply all_of_C; [reflexivity | cbn; lia |].
+    intros rest G res f HG Hao Hk Hf. unfold postfix_entry. cbn [print_expr app primary_with bind fst snd].
+    apply Hk. needs. lia.
+  - (* EBinary *)
+    bsplit. osplit.
+    assert (Hl : ALL e1) by (apply IH; [lia|assumption|assumption]).
+    assert (Hr : ALL e2) by (apply IH; [lia|assumption|assumption]).
+    assert (Ho : o = Pow \/ o <> Pow) by (destruct o; auto; right; discriminate).
+    destruct Ho as [-> | Ho].
+    + (* power: unary ** power *)
+      bsplit. lebs.
+      apply (all_of_own _ LPow); [exact W0 | reflexivity | cbn; lia |].
+      split; [|intros []].
+      intros rest f Hs Hf. cbn [lnum] in *. needs. destruct f as [|f1]; [lia|].
+      cbn [print_expr print_binop defloat]. rewrite <- app_assoc. cbn [app pe].
+      rewrite (proj1 (proj1 Hl LUnary ltac:(cbn [lnum]; lia)) (TOp OStarStar :: print_expr e2 ++ rest) f1);
+        [| cbn; lia | cbn [lnum]; unfold need; lia].
+      cbn [bind fst snd].
+      rewrite (proj1 (proj1 Hr LPow ltac:(cbn [lnum]; lia)) rest f1); [| exact Hs | cbn [lnum]; unfold need; lia].
+      reflexivity.
+    + assert (W3 : (op_lvl o <=? lvl_of e1) && (op_lvl o + 1 <=? lvl_of e2) = true) by (destruct o; try assumption; congruence).
+      bsplit. lebs.
+      destruct (level_of_op_ok o) as [HLn HLl]. specialize (HLl Ho).
+      set (L := level_of_op o) in *.
+      assert (HB : B (EBinary e1 o e2) L).
+      { intros rest G res f HG Hs Hk Hf.
+        cbn [print_expr]. rewrite <- !app_assoc.
+        apply (proj2 (proj1 Hl L ltac:(lia)) HLl (print_binop o ++ print_expr e2 ++ rest) (G + need e2 + 1) res f).
+        - lia.
+        - rewrite HLn. apply stop_binop. exact Ho.
+        - intros g Hg. destruct g as [|g1]; [lia|]. cbn [bloop].
+          rewrite binop_at_print by (exact HLl || (symmetry; exact HLn)).
+          rewrite (proj1 (proj1 Hr (next L) ltac:(rewrite lnum_next_loop by exact HLl; lia)) rest g1);
+            [| rewrite lnum_next_loop by exact HLl; exact Hs | rewrite lnum_next_loop by exact HLl; lia].
+          cbn [bind fst snd]. apply Hk. lia.
+        - needs. lia. }
+      apply (all_of_own _ L); [exact W0 | exact HLn | cbn [lvl_of]; destruct o; cbn; lia |].
+      split; [apply B_to_A; assumption | intros _; exact HB].
+  - (* EUnary *)
+    destruct o.
+    + (* Neg *)
+      bsplit. lebs.
+      assert (Hx : ALL e) by (apply IH; [lia|assumption|assumption]).
+      apply (all_of_own _ LUnary); [exact W0 | reflexivity | cbn; lia |].
+      split; [|intros []].
+      intros rest f Hs Hf. cbn [lnum] in *. needs. destruct f as [|f1]; [lia|].
+      cbn [print_expr app pe defloat].
+      rewrite (proj1 (proj1 Hx LUnary ltac:(cbn [lnum]; lia)) rest f1); [reflexivity | exact Hs | cbn [lnum]; unfold need; lia].
+    + (* Not *)
+      bsplit. lebs.
+      assert (Hx : ALL e) by (apply IH; [lia|assumption|assumption]).
+      apply (all_of_own _ LNot); [exact W0 | reflexivity | cbn; lia |].
+      split; [|intros []].
+      intros rest f Hs Hf. cbn [lnum] in *. needs. destruct f as [|f1]; [lia|].
+      cbn [print_expr app pe defloat].
+      rewrite (proj1 (proj1 Hx LNot ltac:(cbn [lnum]; lia)) rest f1); [reflexivity | exact Hs | cbn [lnum]; unfold need; lia].
+  - (* ECall *)
+    bsplit. osplit. lebs.
+    assert (Hb : ALL e) by (apply IH; [lia|assumption|assumption]).
+    apply all_of_C; [exact W0 | cbn; lia |].
+    intros rest G res f HG Hao Hk Hf.
+    rewrite ?print_call, ?print_method. rewrite <- app_assoc. cbn [app]. rewrite <- app_assoc. cbn [app].
+    assert (Hargs : forall a, List.In a args -> wfb (snd a) = true /\ A (snd a) LOr).
+    { intros a Ha. assert (Wa : wfb (snd a) = true) by (eapply (forallb_in (fun a => wfb (snd a))); eassumption).
+      split; [exact Wa|].
+      assert (Ka : has_cc (snd a) = false) by (eapply (existsb_in (fun a => has_cc (snd a))); eassumption).
+      pose proof (in_sum (fun a => size (snd a)) a args Ha).
+      apply (proj1 (IH (snd a) ltac:(lia) Wa Ka)). cbn; lia. }
+    pose proof (sum_scale (fun a => size (snd a)) args) as Hsc.
+    apply (proj2 Hb ltac:(lia) _ (G + list_sum (map (fun a => need (snd a)) args) + 2) res f).
+    + lia.
+    + split; [intros t Hc; discriminate Hc|]. destruct e; auto. destruct f0; auto. discriminate.
+    + intros g Hg. destruct g as [|g1]; [lia|]. cbn [ploop].
+      rewrite pargs_ok; [| exact Hargs | lia].
+      cbn [bind fst snd expect_pu]. apply Hk. lia.
+    + needs. unfold need in Hsc. rewrite Hsc. lia.
+  - (* EIndex *)
+    bsplit. osplit. lebs.
+    assert (Hb : ALL e1) by (apply IH; [lia|assumption|assumption]).
+    assert (Hi : ALL e2) by (apply IH; [lia|assumption|assumption]).
+    assert (Wi : wfb e2 = true) by assumption.
+    apply all_of_C; [exact W0 | cbn; lia |].
+    intros rest G res f HG Hao Hk Hf.
+    cbn [print_expr]. rewrite <- app_assoc. cbn [app]. rewrite <- app_assoc. cbn [app].
+    apply (proj2 Hb ltac:(lia) _ (G + need e2 + 2) res f).
+    + lia.
+    + split; [intros t Hc; discriminate Hc|]. destruct e1; auto. destruct f0; auto. intros t Hc; discriminate Hc.
+    + intros g Hg. destruct g as [|g1]; [lia|]. cbn [ploop].
+      rewrite pindex_default; try (head_neq Wi (TPu PRBracket :: rest)).
+      rewrite (proj1 (proj1 Hi LOr ltac:(cbn [lnum]; lia)) (TPu PRBracket :: rest) g1); [| cbn; exact I | cbn [lnum]; lia].
+      cbn [bind fst snd expect_pu apply_ios]. apply Hk. lia.
+    + needs. lia.
+  - (* ESlice *)
+    bsplit. osplit. lebs.
+    assert (Hb : ALL e) by (apply IH; [lia|assumption|assumption]).
+    assert (Hcc : e0 = None -> st = None) by (intros ->; destruct st; [discriminate|reflexivity]).
+    apply all_of_C; [exact W0 | cbn; lia |].
+    intros rest G res f HG Hao Hk Hf.
+    rewrite print_slice by exact Hcc. rewrite <- app_assoc. cbn [app]. rewrite <- app_assoc. cbn [app].
+    set (ns := match s with Some x => size x | None => 0 end) in *.
+    set (ne := match e0 with Some x => size x | None => 0 end) in *.
+    set (nst := match st with Some x => size x | None => 0 end) in *.
+    assert (Hopt : forall (o : option expr) k, wf_opt wfb o = true -> match o with Some y => has_cc y | None => false end = false ->
+               match o with Some x => size x | None => 0 end <= n -> 20 * match o with Some x => size x | None => 0 end <= k -> opt_ok k o).
+    { intros [y|] k Wy Ky Sy Hk'; cbn [opt_ok wf_opt] in *; [|exact I].
+      split; [exact Wy|]. split; [|unfold need; lia].
+      apply (proj1 (IH y Sy Wy Ky)). cbn; lia. }
+    apply (proj2 Hb ltac:(lia) _ (G + 20 * (ns + ne + nst) + 2) res f).
+    + lia.
+    + split; [intros t Hc; discriminate Hc|]. destruct e; auto. destruct f0; auto. intros t Hc; discriminate Hc.
+    + intros g Hg. destruct g as [|g1]; [lia|]. cbn [ploop].
+      rewrite pindex_slice_ok; [| apply Hopt; try assumption; subst ns; lia | apply Hopt; try assumption; subst ne; lia
+                               | apply Hopt; try assumption; subst nst; lia | exact Hcc].
+      cbn [bind fst snd expect_pu apply_ios defloat]. apply Hk. lia.
+    + needs. lia.
+  - (* EField *)
+    bsplit. osplit. lebs.
+    assert (Hb : ALL e) by (apply IH; [lia|assumption|assumption]).
+    apply all_of_C; [exact W0 | cbn; lia |].
+    intros rest G res f0 HG Hao Hk Hf.
+    cbn [print_expr]. rewrite <- app_assoc. cbn [app].
+    apply (proj2 Hb ltac:(lia) _ (G + 1) res f0).
+    + lia.
+    + split; [intros t Hc; discriminate Hc|]. destruct e; auto. destruct f1; auto. intros t Hc; discriminate Hc.
+    + intros g Hg. destruct g as [|g1]; [lia|]. destruct f as [m|k]; cbn [print_fld].
+      * (* name: not followed by `(` *)
+        destruct Hao as [_ Hnp]. cbn [ploop].
+        destruct rest as [|t0 rest']; [cbn [defloat] in Hk; apply Hk; lia|].
+        destruct t0; try (cbn [defloat] in Hk; apply Hk; lia).
+        destruct p; try (cbn [defloat] in Hk; apply Hk; lia).
+        exfalso; eapply Hnp; reflexivity.
+      * cbn [ploop]. cbn [defloat] in Hk. apply Hk. lia.
+    + needs. lia.
+  - (* EMethod *)
+    bsplit. osplit. lebs.
+    assert (Hb : ALL e) by (apply IH; [lia|assumption|assumption]).
+    apply all_of_C; [exact W0 | cbn; lia |].
+    intros rest G res f HG Hao Hk Hf.
+    rewrite ?print_call, ?print_method. rewrite <- app_assoc. cbn [app]. rewrite <- app_assoc. cbn [app].
+    assert (Hargs : forall a, List.In a args -> wfb (snd a) = true /\ A (snd a) LOr).
+    { intros a Ha. assert (Wa : wfb (snd a) = true) by (eapply (forallb_in (fun a => wfb (snd a))); eassumption).
+      split; [exact Wa|].
+      assert (Ka : has_cc (snd a) = false) by (eapply (existsb_in (fun a => has_cc (snd a))); eassumption).
+      pose proof (in_sum (fun a => size (snd a)) a args Ha).
+      apply (proj1 (IH (snd a) ltac:(lia) Wa Ka)). cbn; lia. }
+    pose proof (sum_scale (fun a => size (snd a)) args) as Hsc.
+    apply (proj2 Hb ltac:(lia) _ (G + list_sum (map (fun a => need (snd a)) args) + 2) res f).
+    + lia.
+    + split; [intros t Hc; discriminate Hc|]. destruct e; auto. destruct f0; auto. intros t Hc; discriminate Hc.
+    + intros g Hg. destruct g as [|g1]; [lia|]. cbn [ploop].
+      rewrite pargs_ok; [| exact Hargs | lia].
+      cbn [bind fst snd expect_pu]. apply Hk. lia.
+    + needs. unfold need in Hsc. rewrite Hsc. lia.
+  - (* EAwait *)
+    bsplit. lebs.
+    assert (Hx : ALL e) by (apply IH; [lia|assumption|assumption]).
+    apply (all_of_own _ LUnary); [exact W0 | reflexivity | cbn; lia |].
+    split; [|intros []].
+    intros rest f Hs Hf. cbn [lnum] in *. needs. destruct f as [|f1]; [lia|].
+    cbn [print_expr app pe defloat].
+    rewrite (proj1 (proj1 Hx LUnary ltac:(cbn [lnum]; lia)) rest f1); [reflexivity | exact Hs | cbn [lnum]; unfold need; lia].
+  - (* ETry *)
+    bsplit. lebs.
+    assert (Hb : ALL e) by (apply IH; [lia|assumption|assumption]).
+    apply all_of_C; [exact W0 | cbn; lia |].
+    intros rest G res f HG Hao Hk Hf.
+    cbn [print_expr]. rewrite <- app_assoc. cbn [app].
+    apply (proj2 Hb ltac:(lia) _ (G + 1) res f).
+    + lia.
+    + split; [intros t Hc; discriminate Hc|]. destruct e; auto. destruct f0; auto. intros t Hc; discriminate Hc.
+    + intros g Hg. destruct g as [|g1]; [lia|]. cbn [ploop]. cbn [defloat] in Hk. apply Hk. lia.
+    + needs. lia.
+  - (* ETuple *)
+    apply all_of_C; [exact W0 | cbn; lia |].
+    intros rest G res f HG [Har _] Hk Hf. unfold postfix_entry.
+    assert (Hes : forall y, List.In y es -> wfb y = true /\ A y LOr).
+    { intros y Hy. assert (Wy : wfb y = true) by (eapply forallb_in; eassumption). split; [exact Wy|].
+      assert (Ky : has_cc y = false) by (eapply existsb_in; eassumption).
+      pose proof (in_sum size y es Hy).
+      apply (proj1 (IH y ltac:(lia) Wy Ky)). cbn; lia. }
+    assert (Fin : forall v, bind (match rest with
+                                   | TPu PFatArrow :: t4 => match to_params v with
+                                                            | Some ps => bind (pe f LOr t4) (fun b => POk (EClosure ps (fst b), snd b))
+                                                            | None => PErr end
+                                   | _ => POk (ETuple v, rest) end) (fun r => ploop f (fst r) (snd r)) = ploop f (ETuple v) rest).
+    { intros v. destruct rest as [|t0 rest']; [reflexivity|]. destruct t0; try reflexivity.
+      destruct p; try reflexivity. exfalso; eapply Har; reflexivity. }
+    destruct es as [|x ys].
+    + cbn [print_expr map sep app primary_with].
+      destruct rest as [|t0 rest']; [cbn; apply Hk; needs; lia|].
+      destruct t0; try (cbn; apply Hk; needs; lia). destruct p; try (cbn; apply Hk; needs; lia).
+      exfalso; eapply Har; reflexivity.
+    + destruct (Hes x (or_introl eq_refl)) as [Wx Ax].
+      pose proof (need_sum ys) as Hsy. pose proof (need_pos x).
+      unfold need in Hf; cbn [size map] in Hf; rewrite list_sum_cons in Hf.
+      cbn [print_expr map]. rewrite sep_cons.
+      set (X := flat_map (fun y => TPu PComma :: y) (map print_expr ys)).
+      destruct ys as [|y ys'].
+      * (* one element: `(x,)` *)
+        subst X. cbn [flat_map app]. rewrite app_nil_r. rewrite <- app_assoc. cbn [app].
+        rewrite primary_paren by (head_neq Wx (TPu PComma :: TPu PRParen :: rest)).
+        rewrite (Ax (TPu PComma :: TPu PRParen :: rest) f); [| cbn; exact I | cbn [lnum]; unfold need; lia].
+        cbn [bind fst snd].
+        assert (f <> 0) by lia. destruct f as [|f1]; [congruence|].
+        cbn [pelems is_pu bind fst snd expect_pu].
+        rewrite (Fin [defloat x]). apply Hk. try (unfold need in Hf; cbn [size] in Hf). lia.
+      * (* two or more *)
+        cbn [app]. rewrite <- !app_assoc. cbn [app].
+        rewrite primary_paren by (head_neq Wx (X ++ TPu PRParen :: rest)).
+        assert (TX : tail_ok (X ++ TPu PRParen :: rest)) by (subst X; reflexivity).
+        rewrite (Ax (X ++ TPu PRParen :: rest) f); [| apply tail_stop; exact TX | cbn [lnum]; unfold need; lia].
+        cbn [bind fst snd].
+        assert (HX : X ++ TPu PRParen :: rest = TPu PComma :: (print_expr y ++ flat_map (fun y0 => TPu PComma :: y0) (map print_expr ys')) ++ TPu PRParen :: rest)
+          by (subst X; reflexivity).
+        rewrite HX at 1. cbn iota.
+        subst X. rewrite (pelems_ok PRParen (or_introl eq_refl) (y :: ys') rest f);
+          [| intros; apply Hes; right; assumption | rewrite Hsy; lia].
+        cbn [bind fst snd expect_pu].
+        rewrite (Fin (defloat x :: map defloat (y :: ys'))). apply Hk. try (unfold need in Hf; cbn [size] in Hf). lia.
+  - (* EList *)
+    apply all_of_C; [exact W0 | cbn; lia |].
+    intros rest G res f HG Hao Hk Hf. unfold postfix_entry.
+    assert (Hes : forall y, List.In y es -> wfb y = true /\ A y LOr).
+    { intros y Hy. assert (Wy : wfb y = true) by (eapply forallb_in; eassumption). split; [exact Wy|].
+      assert (Ky : has_cc y = false) by (eapply existsb_in; eassumption).
+      pose proof (in_sum size y es Hy).
+      apply (proj1 (IH y ltac:(lia) Wy Ky)). cbn; lia. }
+    destruct es as [|x ys].
+    + cbn [print_expr map sep app primary_with bind fst snd]. apply Hk. try (unfold need in Hf; cbn [size] in Hf). lia.
+    + destruct (Hes x (or_introl eq_refl)) as [Wx Ax].
+      pose proof (need_sum ys) as Hsy. pose proof (need_pos x).
+      unfold need in Hf; cbn [size map] in Hf; rewrite list_sum_cons in Hf.
+      cbn [print_expr map]. rewrite sep_cons. cbn [app]. rewrite <- !app_assoc. cbn [app].
+      set (X := flat_map (fun y => TPu PComma :: y) (map print_expr ys)).
+      rewrite primary_bracket by (head_neq Wx (X ++ TPu PRBracket :: rest)).
+      assert (TX : tail_ok (X ++ TPu PRBracket :: rest)) by (subst X; destruct ys; reflexivity).
+      rewrite (Ax (X ++ TPu PRBracket :: rest) f); [| apply tail_stop; exact TX | cbn [lnum]; unfold need; lia].
+      cbn [bind fst snd]. subst X.
+      rewrite (pelems_ok PRBracket (or_intror eq_refl) ys rest f);
+        [| intros; apply Hes; right; assumption | rewrite Hsy; lia].
+      cbn [bind fst snd expect_pu]. apply Hk. try (unfold need in Hf; cbn [size] in Hf). lia.
+  - discriminate W.
+  - discriminate W.
+  - (* EParen *)
+    assert (Hx : ALL e) by (apply IH; [lia|assumption|assumption]).
+    apply all_of_C; [exact W0 | cbn; lia |].
+    intros rest G res f HG [Har _] Hk Hf. unfold postfix_entry.
+    cbn [print_expr app]. rewrite <- app_assoc. cbn [app].
+    rewrite primary_paren by (head_neq W (TPu PRParen :: rest)).
+    rewrite (proj1 (proj1 Hx LOr ltac:(cbn [lnum]; lia)) (TPu PRParen :: rest) f); [| cbn; exact I | cbn [lnum]; needs; lia].
+    cbn [bind fst snd expect_pu].
+    destruct rest as [|t0 rest']; [cbn; apply Hk; needs; lia|].
+    destruct t0; try (cbn; apply Hk; needs; lia). destruct p; try (cbn; apply Hk; needs; lia).
+    exfalso; eapply Har; reflexivity.
+  - (* ERange *)
+    bsplit. osplit. lebs.
+    assert (Hs1 : ALL e1) by (apply IH; [lia|assumption|assumption]).
+    assert (Hs2 : ALL e2) by (apply IH; [lia|assumption|assumption]).
+    apply (all_of_own _ LRange); [exact W0 | reflexivity | cbn; lia |].
+    split; [|intros []].
+    intros rest f Hs Hf. cbn [lnum] in *. needs. destruct f as [|f1]; [lia|].
+    cbn [print_expr defloat]. rewrite <- app_assoc. cbn [app pe].
+    rewrite (proj1 (proj1 Hs1 LAdd ltac:(cbn [lnum]; lia)) _ f1); [| destruct incl; cbn; lia | cbn [lnum]; unfold need; lia].
+    cbn [bind fst snd].
+    destruct incl; cbn iota;
+      (rewrite (proj1 (proj1 Hs2 LAdd ltac:(cbn [lnum]; lia)) rest f1);
+        [reflexivity | eapply stop_mono; [|exact Hs]; cbn [lnum]; lia | cbn [lnum]; unfold need; lia]).
+  - discriminate W.
+Qed.
+
+(* ------------------------------------------------------------------ the round-trip theorems *)
+Theorem expr_roundtrip_norm : forall e rest f,
+  wfb e = true -> has_cc e = false -> stop 0 rest -> need e <= f ->
+  parse_expr f (print_expr e ++ rest) = POk (defloat e, rest).
+Proof.
+  intros e rest f W K Hs Hf. unfold parse_expr.
+  destruct (roundtrip_all (size e) e (le_n _) W K) as [H _].
+  apply (proj1 (H LOr ltac:(cbn [lnum]; lia))); [exact Hs | cbn [lnum]; lia].
+Qed.
+
+Lemma size_ind : forall P : expr -> Prop,
+  (forall e, (forall e', size e' < size e -> P e') -> P e) -> forall e, P e.
+Proof.
+  intros P H e. assert (G : forall n e, size e <= n -> P e).
+  { induction n as [|n IH]; intros e0 Hn; apply H; intros e' Hlt; [lia|]. apply IH. lia. }
+  apply (G (size e)). lia.
+Qed.
+
+Lemma map_id_in : forall {X} (g : X -> X) xs, (forall x, List.In x xs -> g x = x) -> map g xs = xs.
+Proof. intros X g xs H. rewrite <- (map_id xs) at 2. apply map_ext_in. exact H. Qed.
+
+Ltac sz := cbn [size]; lia.
+
+(* outside the float class the normalisation is the identity *)
+Lemma defloat_id : forall e, has_intfloat e = false -> defloat e = e.
+Proof.
+  apply (size_ind (fun e => has_intfloat e = false -> defloat e = e)).
+  intros e IH K. destruct e; cbn [has_intfloat] in K; cbn [defloat]; osplit;
+    try reflexivity;
+    try (rewrite ?IH by (assumption || sz); reflexivity).
+  - destruct l as [z|id [k|]|id|id|b|]; try reflexivity. discriminate K.
+  - rewrite IH by (assumption || sz). f_equal. apply map_id_in. intros [o x] Hx. cbn [fst snd].
+    pose proof (in_sum (fun a => size (snd a)) _ _ Hx). cbn [snd] in *.
+    rewrite IH; [reflexivity | sz | exact (existsb_in (fun a => has_intfloat (snd a)) _ _ ltac:(eassumption) Hx)].
+  - rewrite IH by (assumption || sz).
+    assert (Ho : forall o : option expr, match o with Some y => size y | None => 0 end <= size (ESlice e s e0 st) - 1 - size e ->
+              match o with Some y => has_intfloat y | None => false end = false -> option_map defloat o = o).
+    { intros [y|] Hs Hk; [|reflexivity]. cbn [option_map]. rewrite IH; [reflexivity | cbn [size] in *; lia | exact Hk]. }
+    rewrite !Ho by (assumption || (cbn [size]; lia)). reflexivity.
+  - rewrite IH by (assumption || sz). f_equal. apply map_id_in. intros [o x] Hx. cbn [fst snd].
+    pose proof (in_sum (fun a => size (snd a)) _ _ Hx). cbn [snd] in *.
+    rewrite IH; [reflexivity | sz | exact (existsb_in (fun a => has_intfloat (snd a)) _ _ ltac:(eassumption) Hx)].
+  - f_equal. apply map_id_in. intros x Hx. pose proof (in_sum size _ _ Hx).
+    apply IH; [sz | exact (existsb_in has_intfloat _ _ K Hx)].
+  - f_equal. apply map_id_in. intros x Hx. pose proof (in_sum size _ _ Hx).
+    apply IH; [sz | exact (existsb_in has_intfloat _ _ K Hx)].
+  - f_equal. apply map_id_in. intros [k v] Hx. cbn [fst snd].
+    pose proof (in_sum (fun kv => size (fst kv) + size (snd kv)) _ _ Hx) as Hs. cbn [fst snd] in Hs.
+    pose proof (existsb_in (fun kv => has_intfloat (fst kv) || has_intfloat (snd kv)) _ _ K Hx) as Hk. cbn [fst snd] in Hk.
+    apply orb_false_elim in Hk as [Hk1 Hk2].
+    rewrite !IH by (assumption || sz). reflexivity.
+  - f_equal. apply map_id_in. intros x Hx. pose proof (in_sum size _ _ Hx).
+    apply IH; [sz | exact (existsb_in has_intfloat _ _ K Hx)].
+Qed.
+
+Theorem expr_roundtrip : forall e rest f,
+  wfb e = true -> has_cc e = false -> has_intfloat e = false -> stop 0 rest -> need e <= f ->
+  parse_expr f (print_expr e ++ rest) = POk (e, rest).
+Proof. intros e rest f W K1 K2 Hs Hf. rewrite <- (defloat_id e K2) at 2. apply expr_roundtrip_norm; assumption. Qed.
+
+(* ------------------------------------------------------------------ idempotence at the token level *)
+Lemma print_defloat : forall e, wfb e = true -> print_expr (defloat e) = print_expr e.
+Proof.
+  apply (size_ind (fun e => wfb e = true -> print_expr (defloat e) = print_expr e)).
+  intros e IH W. destruct e; cbn [wfb] in W; try discriminate W;
+    try (cbn [defloat print_expr]; reflexivity);
+    match goal with |- context [ECall] => idtac | |- context [EMethod] => idtac | _ => cbn [defloat print_expr] end.
+  - destruct l as [z|id [k|]|id|id|b|]; try reflexivity. cbn [defloat_lit print_lit].
+    apply Z.leb_le in W. destruct (k <? 0)%Z eqn:E; [apply Z.ltb_lt in E; lia|reflexivity].
+  - bsplit. rewrite !IH by (assumption || sz). reflexivity.
+  - destruct o; bsplit; rewrite IH by (assumption || sz); reflexivity.
+  - bsplit. cbn [defloat].
+    rewrite ?print_call, ?print_method.
+    assert (E : map print_arg (map (fun a => (fst a, defloat (snd a))) args) = map print_arg args).
+    { rewrite map_map. apply map_ext_in. intros [o x] Hx. unfold print_arg. cbn [fst snd].
+      pose proof (in_sum (fun a => size (snd a)) _ _ Hx). cbn [snd] in *.
+      rewrite IH; [reflexivity | sz | exact (forallb_in (fun a => wfb (snd a)) _ _ ltac:(eassumption) Hx)]. }
+    rewrite E, IH by (assumption || sz). reflexivity.
+  - bsplit. rewrite !IH by (assumption || sz). reflexivity.
+  - bsplit. rewrite IH by (assumption || sz).
+    assert (Ho : forall o : option expr, match o with Some y => size y | None => 0 end <= size (ESlice e s e0 st) - 1 - size e ->
+              wf_opt wfb o = true -> match option_map defloat o with Some y => print_expr y | None => [] end = match o with Some y => print_expr y | None => [] end).
+    { intros [y|] Hs Hk; [|reflexivity]. cbn [option_map]. rewrite IH; [reflexivity | cbn [size] in *; lia | exact Hk]. }
+    pose proof (Ho s ltac:(cbn [size]; lia) ltac:(assumption)) as Q1.
+    pose proof (Ho e0 ltac:(cbn [size]; lia) ltac:(assumption)) as Q2.
+    pose proof (Ho st ltac:(cbn [size]; lia) ltac:(assumption)) as Q3.
+    destruct s, e0, st; cbn [option_map] in *; rewrite ?Q1, ?Q2, ?Q3; try reflexivity;
+      repeat match goal with H : print_expr _ = print_expr _ |- _ => rewrite H; clear H end; reflexivity.
+  - bsplit. rewrite IH by (assumption || sz). reflexivity.
+  - bsplit. cbn [defloat].
+    rewrite ?print_call, ?print_method.
+    assert (E : map print_arg (map (fun a => (fst a, defloat (snd a))) args) = map print_arg args).
+    { rewrite map_map. apply map_ext_in. intros [o x] Hx. unfold print_arg. cbn [fst snd].
+      pose proof (in_sum (fun a => size (snd a)) _ _ Hx). cbn [snd] in *.
+      rewrite IH; [reflexivity | sz | exact (forallb_in (fun a => wfb (snd a)) _ _ ltac:(eassumption) Hx)]. }
+    rewrite E, IH by (assumption || sz). reflexivity.
+  - bsplit. rewrite IH by (assumption || sz). reflexivity.
+  - bsplit. rewrite IH by (assumption || sz). reflexivity.
+  - assert (E : map print_expr (map defloat es) = map print_expr es).
+    { rewrite map_map. apply map_ext_in. intros x Hx. pose proof (in_sum size _ _ Hx).
+      apply IH; [sz | exact (forallb_in wfb _ _ W Hx)]. }
+    rewrite E. destruct es as [|x [|y ys]]; reflexivity.
+  - assert (E : map print_expr (map defloat es) = map print_expr es).
+    { rewrite map_map. apply map_ext_in. intros x Hx. pose proof (in_sum size _ _ Hx).
+      apply IH; [sz | exact (forallb_in wfb _ _ W Hx)]. }
+    rewrite E. reflexivity.
+  - rewrite IH by (assumption || sz). reflexivity.
+  - bsplit. rewrite !IH by (assumption || sz). reflexivity.
+Qed.
+
+(* fmt_src: parse a token text and print the result (None if it does not parse completely) *)
+Definition fmt_src (fuel : nat) (ts : list tok) : option (list tok) :=
+  match parse_expr fuel ts with POk (e, []) => Some (print_expr e) | _ => None end.
+
+Theorem fmt_idempotent_tokens : forall e f,
+  wfb e = true -> has_cc e = false -> need e <= f ->
+  fmt_src f (print_expr e) = Some (print_expr e).
+Proof.
+  intros e f W K Hf. unfold fmt_src.
+  pose proof (expr_roundtrip_norm e [] f W K I Hf) as H. rewrite app_nil_r in H. rewrite H.
+  rewrite print_defloat by exact W. reflexivity.
 Qed.
